@@ -497,7 +497,7 @@ func (g *GenState) genDelete(m *ref.Model, lay Layout) Op {
 	return op
 }
 
-func (g *GenState) genTrim(m *ref.Model, statSize int64) Op {
+func (g *GenState) genTrim(m *ref.Model, statSize int64, per func(ref.Msg) int64) Op {
 	r := g.r
 	op := Op{Kind: "trim", Sub: pick(r, g.prof.TrimSubs)}
 	op.Variant = pick(r, []string{"", "multi", "multi", "multioffsets", "find"})
@@ -529,6 +529,21 @@ func (g *GenState) genTrim(m *ref.Model, statSize int64) Op {
 			op.N = statSize + int64(r.Intn(100))
 		case 2:
 			op.N = statSize
+		case 3:
+			// an exact boundary of the size estimate: the target equals what is left after removing
+			// the k oldest messages (no extra PRNG draw: k is the first prefix that reaches the drawn
+			// target), so "below the target" and "at the target" are told apart (seeded change C15-n)
+			op.N = r.Int63n(statSize + 1)
+			total := statSize
+			for _, lm := range m.Live {
+				if total <= op.N {
+					break
+				}
+				total -= per(lm)
+			}
+			if total >= 0 {
+				op.N = total
+			}
 		default:
 			op.N = r.Int63n(statSize + 1)
 		}
@@ -698,7 +713,7 @@ func (g *GenState) genOp(h *Hist) Op {
 		return g.genDelete(h.model, lay)
 	case "trim":
 		_, sz := dirSizes(h.dir)
-		return g.genTrim(h.model, sz)
+		return g.genTrim(h.model, sz, func(lm ref.Msg) int64 { return int64(ref.RecordSize(lm, h.opts.EffVer()) + h.cfg.ItemSize()) })
 	case "compact":
 		return g.genCompact(h.model)
 	case "gc":
